@@ -128,7 +128,7 @@ func c07grammar(c *core.Ctx) {
 	layouts := c.Pick(3, 5)
 	type bad struct {
 		text, msg string
-		g        *gramCase
+		g         *gramCase
 	}
 	bads := make([]*bad, len(gcs))
 	core.Parallel(len(gcs), func(i int) {
